@@ -104,6 +104,17 @@ func runC04(c *Ctx) {
 			}
 		}
 	}
+	if na >= 2 && g.Chance(1, 5) {
+		// cooperating clients: the same procedure registered by two sessions
+		// under one (possibly unknown) sharing policy, then called
+		pol := g.Pick("foo", "bogus", "roundrobin", "random", "first", "last", "")
+		var pre []c04op
+		for a := 0; a < 2; a++ {
+			pre = append(pre, c04op{att: a, kind: 0, msg: &wamp.Register{Request: wamp.ID(100 + a), Options: wamp.Dict{"invoke": pol}, Procedure: "p.coop"}})
+		}
+		ops = append(pre, ops...)
+		ops = append(ops, c04op{att: g.Intn(na), kind: 3, sleep: time.Millisecond}, c04op{att: g.Intn(na), kind: 0, msg: &wamp.Call{Request: 200, Options: wamp.Dict{}, Procedure: "p.coop", Arguments: wamp.List{1}}})
+	}
 	c.Res.NOps = len(ops)
 	type attCfg struct {
 		join   int // 0: proper join first; 1: raw attach, script from the first message on; 2: ticket handshake started
